@@ -77,7 +77,18 @@ def replay_mesh(model, cls="SinglePhaseReservoir", nx=5):
             warnings.simplefilter("ignore")
             const = FlowProperties(pvt, 8000.0)
         fluids.append(const)
-    labels = ["shipped gas table", "shipped gas table, diffusivity in units 1e-17 times smaller", "shipped gas table with a constant user diffusivity column"]
+
+        # ... and a fluid whose diffusivity FALLS with pressure (a liquid-like table: the shipped values in reverse order), so
+        # that the scaled diffusivity alpha / alpha(m_i) is above 1 everywhere below the initial state
+        class Falling:
+            m_i = base.m_i
+            m_scaled_func = base.m_scaled_func
+            pvt_props = base.pvt_props
+            alpha = interp1d(np.asarray(base.alpha.x, float), np.asarray(base.alpha.y, float)[::-1].copy(), bounds_error=False,
+                             fill_value=(float(np.min(base.alpha.y)), float(np.max(base.alpha.y))))
+        fluids.append(Falling())
+    labels = ["shipped gas table", "shipped gas table, diffusivity in units 1e-17 times smaller", "shipped gas table with a constant user diffusivity column",
+              "shipped gas table with its diffusivity values in reverse order (falling with pressure)"]
     problems = []
     for fi, fluid in enumerate(fluids):
         res, calls = real_capture(cls, nx, t, fluid, None if fluid is None else np.full(3, 1000.0))
